@@ -75,3 +75,23 @@ def explore_budget(profile, budget, max_depth=8):
         if r.per_depth and r.per_depth[-1] == 0:
             break
     return best
+
+
+def cross_namespace_models():
+    """A product family that the pair profiles reach only at great depth: every primitive of the parameter menu, bare and
+    wrapped, aliased in one namespace and used directly as a field / tag / route type in that namespace AND in an
+    importing one (both alphabetical orders of importer and imported), with no other use of that primitive there."""
+    from .model import (Model, Namespace, File, Alias, R, N, L, M, VOID, mkfield, mktag, mkstruct, mkunion, mkroute)
+    prims = FAMILIES['F8-params'][1]['prims']
+    out = []
+    for pi, p in enumerate(prims):
+        for wi, wrap in enumerate([lambda t: t, lambda t: N(t), lambda t: L(t, None, None), lambda t: M(t)]):
+            for home, user in (('na', 'nb'), ('nb', 'na')):
+                al = Alias('Aal', p, None, ())
+                home_defs = (al, mkstruct('Sho', fields=[mkfield('fh', wrap(R(None, 'Aal')))]))
+                user_defs = (mkstruct('Sus', fields=[mkfield('fu', wrap(R(home, 'Aal')))]),
+                             mkunion('Uus', tags=[mktag('tv'), mktag('tu', wrap(R(home, 'Aal')))]),
+                             mkroute('rus', 1, wrap(R(home, 'Aal')), VOID, VOID))
+                nss = {home: Namespace(home, (File(None, (), home_defs),)), user: Namespace(user, (File(None, (home,), user_defs),))}
+                out.append((Model((nss['na'], nss['nb'])), ('cross-namespace-alias', 'prim%d' % pi, 'wrap%d' % wi, home + '->' + user)))
+    return out
